@@ -333,10 +333,10 @@ def run(sim, plan):
             if len(rep) == 1 and (rep[0].stream, rep[0].function) == (1, 16 if ha == "s1f15" else 18):
                 got_ack = rc.decode_body(rep[0].body).value[0]
             elif len(rep) == 1 and (rep[0].stream, rep[0].function) == (1, 0):
-                got_ack = "abort"      # the handler lost the race inside its transition: request aborted, no effect
+                got_ack = "abort"      # the handler lost the race inside its transition and aborted the transaction
                 sim.probe("race_request_aborted")
             got_state = observed()
-            ok = any(o[0] == got_state and o[2] == got_op and (o[3] == got_ack or got_ack == "abort") for o in outcomes)
+            ok = any(o[0] == got_state and o[2] == got_op and o[3] == got_ack for o in outcomes)
             if not ok:
                 sim.violation("C11.R1", f"operator {oa} and host {ha} at the same time in {cur}: ended in "
                               f"{eq.control_state.current.name} with operator result {got_op} and acknowledge {got_ack}; "
